@@ -71,7 +71,7 @@ func HasEqualMethod(tt types.Type) bool {
 		for i := 0; i < named.NumMethods(); i++ {
 			meth := named.Method(i)
 			sig := meth.Type().(*types.Signature)
-			if meth.Name() != "Equal" || sig.Params().Len() != 1 || sig.Results().Len() != 1 {
+			if meth.Name() != "Equal" || sig.Params().Len() != 1 || sig.Results().Len() != 1 || !TakesOther(sig.Params().At(0).Type(), named) {
 				continue
 			}
 			if b, ok := sig.Results().At(0).Type().(*types.Basic); ok && b.Kind() == types.Bool {
@@ -90,6 +90,19 @@ func HasEqualMethod(tt types.Type) bool {
 		return HasEqualMethod(typ.Elem())
 	}
 	return false
+}
+
+// TakesOther returns whether a method of the type with this parameter type can be handed the other value of the type:
+// the parameter is the type itself, a pointer to it, or an interface that a pointer to it implements.
+// Equal(name string) bool is not an equality of the type with itself.
+func TakesOther(param types.Type, typ *types.Named) bool {
+	if _, isInterface := param.Underlying().(*types.Interface); isInterface {
+		return types.AssignableTo(types.NewPointer(typ), param)
+	}
+	if ptr, ok := types.Unalias(param).(*types.Pointer); ok {
+		param = ptr.Elem()
+	}
+	return types.Identical(param, typ)
 }
 
 // TypedPair returns the types of two arguments that are compared with each other:
